@@ -100,6 +100,7 @@ func main() {
 	st := core.NewStats()
 	seen := map[string]int{}
 	distinct := map[uint64]struct{}{}
+	scheds := map[uint64]struct{}{}
 	totalW := 0
 	for _, c := range p.Campaigns {
 		if c.Phase == *phase {
@@ -162,6 +163,9 @@ func main() {
 			st.Runs++
 			st.Campaigns[camp.Name]++
 			st.Ticks += o.Ticks
+			if o.Sched != 0 {
+				scheds[o.Sched] = struct{}{}
+			}
 			if o.NonTrivial {
 				st.NonTrivial++
 				var d uint64
@@ -216,6 +220,20 @@ func main() {
 			}
 			w.Flush()
 			df.Close()
+		}
+		if len(scheds) > 0 {
+			if sf, err := os.Create(*digests + ".sched"); err == nil {
+				w := bufio.NewWriter(sf)
+				var b [8]byte
+				for d := range scheds {
+					for i := 0; i < 8; i++ {
+						b[i] = byte(d >> (8 * i))
+					}
+					w.Write(b[:])
+				}
+				w.Flush()
+				sf.Close()
+			}
 		}
 	}
 	b, _ := json.Marshal(st)
